@@ -43,6 +43,7 @@ type Task struct {
 	state   int
 	where   string
 	budget  int64
+	selSeed uint64 // select poll order state for the next stretch, set by the scheduler
 	dead    bool
 	spin    int64
 	parkSeq int64 // when it became runnable (FIFO fairness of the default choice)
@@ -126,6 +127,7 @@ type Sim struct {
 	schedHash uint64
 	Probes    map[string]int
 	selSeed   uint64
+	selSeed0  uint64
 	knobSeed  uint64
 	T         *testing.T
 
@@ -193,6 +195,7 @@ func (t *Task) park(where string) {
 	s.mu.Unlock()
 	s.kickSched()
 	<-t.wake
+	runtime.VerifSetSelectSeed(t.selSeed) // the poll order of this stretch, chosen by the scheduler when it released the task
 }
 
 // Y is inserted before every statement of the system under test.
@@ -274,8 +277,15 @@ func (s *Sim) spawn(name, domain, group string, f func()) *Task {
 		t.goid = g
 		s.byGoid[g] = t
 		s.mu.Unlock()
+		// the PRNG states the runtime draws from on behalf of this goroutine (select poll order, map seeds, unseeded math/rand)
+		// belong to the task, so neither a task running in parallel up to its next yield point nor a goroutine the simulator
+		// does not schedule can perturb them
+		runtime.VerifSetMapSeed(Mix(s.knobSeed, uint64(t.ID)+1) | 1)
+		runtime.VerifSetSelectSeed(Mix(s.selSeed0, uint64(t.ID)+1) | 1)
 		defer func() {
 			r := recover()
+			runtime.VerifSetMapSeed(0) // the g may be reused by a goroutine that is not a task
+			runtime.VerifSetSelectSeed(0)
 			s.mu.Lock()
 			if r != nil {
 				pi := PanicInfo{Task: t.Name, Group: t.Group, At: time.Since(s.start)}
@@ -759,7 +769,7 @@ func (s *Sim) loop() {
 		}
 		s.St.Steps++
 		s.selSeed = s.selSeed*6364136223846793005 + 1442695040888963407
-		runtime.VerifSetSelectSeed(s.selSeed | 1)
+		t.selSeed = s.selSeed | 1
 		s.schedHash = (s.schedHash ^ uint64(t.ID+1)) * 1099511628211
 		s.schedHash = (s.schedHash ^ uint64(len(t.where))) * 1099511628211
 		s.mu.Lock()
@@ -801,7 +811,7 @@ func RunBubble(t *testing.T, cfg Config, sched *Choices, mapSeed uint64, driver 
 		}()
 		synctest.Test(t, func(t *testing.T) {
 			s = &Sim{byGoid: map[uint64]*Task{}, kick: make(chan struct{}, 1), lockc: NewCond(), Cfg: cfg, Sched: sched,
-				frozen: map[string]bool{}, deadGroups: map[string]bool{}, Probes: map[string]int{}, start: time.Now(), selSeed: mapSeed ^ 0x5851F42D4C957F2D, knobSeed: mapSeed, T: t}
+				frozen: map[string]bool{}, deadGroups: map[string]bool{}, Probes: map[string]int{}, start: time.Now(), selSeed: mapSeed ^ 0x5851F42D4C957F2D, selSeed0: mapSeed ^ 0x5851F42D4C957F2D, knobSeed: mapSeed, T: t}
 			runtime.VerifSetMapSeed(mapSeed | 1)
 			runtime.VerifSetSelectSeed(s.selSeed | 1)
 			active.Store(s)
